@@ -143,7 +143,7 @@ type TraceEv struct {
 	T    int32
 	Op   int32
 	Step int32
-	PC   [6]uintptr
+	PC   [14]uintptr
 }
 
 var (
